@@ -69,6 +69,14 @@ TEXT = {
                    "the mounting of both wrappers in cmd/main.go is the regenerated fact routeMounts.",
              note=_std_note + " HMAC-SHA-2 is an oracle (the harness computes whether a token's MAC matches the current secret); unforgeability is a cryptographic assumption. "
                   "Token verification itself lives in hagall-common and golang-jwt, outside /repo; it is modelled from reading and covered by the correspondence.", technique=_tech + " + auth side harness"),
+ 'C11': dict(level="C11_order: for every interleaving of receives, frame ticks and consumptions on a connection's scheduler (the model of hagall-common's coalescing map + FIFO, "
+                   "with the main loop free to take any item of a flushed group), the pose updates of an entity consumed so far followed by those in flight are a subsequence, in order, "
+                   "of the updates received, and their last element is the latest received; C11_latest_arrives: once nothing is in flight the last consumed is the last received; "
+                   "C11_sched_invariant / C11_handle_takes_oldest: every connection of every reachable server state satisfies the scheduler invariant, so the server's consumption step "
+                   "takes the oldest queued update of the entity; C11_applied / C11_dropped / C11_gone_stays_gone: the handler stores and relays exactly the consumed pose for the owner, "
+                   "drops unknown / foreign / pose-less updates without effect, and an id that is gone is never reissued. Not proved: wall-clock frame timing ('within a few frames').",
+             note=_std_note + " The scheduler lives in hagall-common (outside /repo): it is modelled from reading and tied by the correspondence (which message the real scheduler hands out is recorded "
+                  "and compared) and by the pose-order monitor on recorded traces.", technique=_tech),
  'C20': dict(level="Index completeness proved for the cell bookkeeping the grid code performs (Model/GridIndex.lean: the append loops, the four edge loops of mergeQuads, the slice "
                    "growth of ExpandToFitPoint, GetRegion's cell walk), for all grids, spans and operation sequences: C20_register_complete, C20_reRegister_complete (whatever the old "
                    "and new span, the moved plane ends registered in every cell of the new one; other planes untouched), C20_grow_keeps / _invents_nothing, C20_region_exactly_once, and "
@@ -90,5 +98,4 @@ NA = {
         "see DESIGN.md section 0.4.",
  'C09': "Data races and deadlocks exist only in schedules; a lock-granularity scheduler over the real code and -race runs are not built. Lock, field and channel facts are extracted "
         "but no theorem or check decides them.",
- 'C11': _na + "Ordering and coalescing over recv / tick / handle interleavings is expressible on the model's event alphabet, but the theorems are unfinished.",
 }
